@@ -54,6 +54,12 @@ def main():
     return
   for idx, seed in job['seeds']:
     t0 = time.time()
+    if os.path.exists('VIOLATION_FOUND') and job.get('stop_on_violation', True):
+      # another run of this check already produced a (minimised) violation:
+      # the verdict is decided, do not spend the budget on more of the same
+      out.write(json.dumps({'skipped': True, 'index': idx, 'seed': seed}) + '\n')
+      out.flush()
+      continue
     try:
       res = mod.run_one(seed, job['tier'], job.get('opts', {}), job['property'])
     except Exception:
@@ -61,6 +67,8 @@ def main():
     res['index'] = idx
     res['seed'] = seed
     res['wall'] = time.time() - t0
+    if res.get('violations'):
+      open('VIOLATION_FOUND', 'a').close()
     out.write(json.dumps(res, default=str) + '\n')
     out.flush()
   out.write(json.dumps({'done': True}) + '\n')
